@@ -127,6 +127,10 @@ func NewBitsetIterator(req *RequirementLogic, descs []string) *BitsetSolutionIte
 
 	for _, desc := range descs {
 		if _, ok := reqDescriptors[desc]; ok {
+			if _, duplicate := idxMap[desc]; duplicate {
+				continue // a definition may name the same input descriptor ID twice
+			}
+
 			idxMap[desc] = i
 			useDescs[i] = desc
 
